@@ -99,10 +99,17 @@ def real_update_kwargs(args):
     a = args.get("fields")
     if a:
         kw["fields"] = dict(a["static"]) if "static" in a else rfields[a["call"]]
-    if args.get("unset_tags") is not None:
-        kw["unset_tags"] = copy.copy(args["unset_tags"])
-    if args.get("unset_fields") is not None:
-        kw["unset_fields"] = copy.copy(args["unset_fields"])
+    for k in ("unset_tags", "unset_fields"):
+        if args.get(k) is not None:
+            v = copy.copy(args[k])
+            form = args.get(k + "_form")
+            if form == "tuple":
+                v = tuple(v)
+            elif form == "gen":
+                v = (i for i in list(v))
+            elif form == "keys":
+                v = {i: None for i in v}.keys()
+            kw[k] = v
     return kw
 
 
